@@ -62,8 +62,7 @@ var specMulti = pbt.Register(&pbt.Spec[HistCase]{
 		"runtime.GC() in the middle of the history (in one history in a hundred, at most three times); kept = Repeat(v, n), kept = Clone(s), kept = Concat(s, t) of two live slices or Concat(s, s) - every kept result is " +
 		"overwritten by the caller with fresh distinct values (so shared memory shows in whatever shares it) and ALL live slices and the last six kept results are " +
 		"verified again after EVERY later call; InsertSlice(&s, i, s[lo:hi]) with a part of the slice itself as the values (view capacity to the end of the array / " +
-		"exactly its length / halfway; the one shape where the unchanged library does not follow the snapshot model - values starting after the index, inserted in place - " +
-		"is remapped, see C12.alias); InsertSlice(&s, i, t[lo:hi:hi]) with a part of ANOTHER live slice as the values; calls with an invalid index on a scratch slice " +
+		"exactly its length / halfway; including values starting after the index and inserted in place, which the pinned tree got wrong - fixed by 4554316, see C12.alias); InsertSlice(&s, i, t[lo:hi:hi]) with a part of ANOTHER live slice as the values; calls with an invalid index on a scratch slice " +
 		"(they panic in the unchanged library; the panic is recovered, nothing is asserted about them) followed by ordinary calls. Initial len 0..8, spare 0..4 (1 in 12: " +
 		"len up to 1200 next to powers of two, batches up to 300); 0/3/8/20 .. 46 steps; the spare capacity of the target is re-poisoned before every call; after every " +
 		"call the target equals the splice model. non-trivial = at least two live slices were operated on, with at least one switch between them, and at least one splice " +
